@@ -50,7 +50,7 @@ def make_results(d, lang, shape, batch, nbest, n, minimal=False, extra=False, un
                 # tokens carrying further attributes, some named like the formats' own fields
                 for i, leaf in enumerate(t.leaves):
                     leaf.children[0].update(start=str(10 + i), span='2', cat='X', id='tok%d' % i, misc='m')
-            if minimal:
+            if minimal is True or (minimal == 'first' and s == 0):
                 # tokens as the readers / the failure placeholder build them: only the word is known
                 for leaf in t.leaves:
                     tok = leaf.children[0]
@@ -59,8 +59,10 @@ def make_results(d, lang, shape, batch, nbest, n, minimal=False, extra=False, un
                             del tok[key]
             sent.append(ScoredTree(t, -1.5 - k if not unsorted else -3.5 + k))
         res.append(sent)
-    if minimal:
+    if minimal is True:
         res.append([ScoredTree(Tree.make_terminal('FAILED', Category.parse('NP')), -float('inf'))])
+    if minimal == 'first':      # a failed sentence and a word-only sentence BEFORE a fully attributed one
+        res.insert(0, [ScoredTree(Tree.make_terminal('FAILED', Category.parse('NP')), -float('inf'))])
     return res
 
 
@@ -73,6 +75,7 @@ def h_seq(d, lang, shape, batch, nbest, n, seqlen, first=None, minimal=False, ex
     snap0 = snapshot(res)
     out = None
     seq = []
+    first_out = {}
     for step in range(seqlen):
         f = first if (step == 0 and first) else d.pick('fmt%d' % step, fmts)
         seq.append(f)
@@ -82,12 +85,15 @@ def h_seq(d, lang, shape, batch, nbest, n, seqlen, first=None, minimal=False, ex
             return ('render-raises.%s.after-%s:%s' % (f, '+'.join(seq[:-1]) or 'nothing', type(e).__name__),)
         if snapshot(res) != snap0:
             return ('mutated-by.' + f, seq)
+        if f in first_out and out != first_out[f]:
+            return ('output-differs-when-rendered-again.%s' % f, seq)      # the printer itself keeps state between renderings
+        first_out.setdefault(f, out)
     fresh = make_results(_Again(d), lang, shape, batch, nbest, n, minimal, extra, unsorted, punct)
     try:
         out2 = to_string(fresh, format=seq[-1])
     except Exception as e:
         return ('fresh-render-raises.%s:%s' % (seq[-1], type(e).__name__),)
-    if out != out2:
+    if out != out2 or out2 != first_out[seq[-1]]:
         return ('output-differs-from-fresh-copy.%s.after-%s' % (seq[-1], '+'.join(seq[:-1])),)
     return True
 
@@ -141,6 +147,8 @@ def obligations(tier):
                 if (batch, nbest) == (1, 1) and s in (SHAPES[1][0], SHAPES[2][0]):
                     yield Obligation('C18.seq[%s,%s,word-only tokens + failed sentence,len=2]' % (lang, shape_name(s)), 'h_seq',
                                      dict(lang=lang, shape=s, batch=1, nbest=1, n=0, seqlen=2, minimal=True), cost=10)
+                    yield Obligation('C18.seq[%s,%s,failed + word-only sentence before an attributed one,len=2]' % (lang, shape_name(s)), 'h_seq',
+                                     dict(lang=lang, shape=s, batch=2, nbest=1, n=0, seqlen=2, minimal='first'), cost=10)
                     yield Obligation('C18.seq[%s,%s,tokens with extra attributes (start span cat id),len=2]' % (lang, shape_name(s)), 'h_seq',
                                      dict(lang=lang, shape=s, batch=1, nbest=1, n=0, seqlen=2, extra=True), cost=10)
                 if (batch, nbest) == (1, 1):
